@@ -4,7 +4,6 @@
 
 use crate::host::{guarded, Guarded, SimApi, SimStorage};
 use crate::util::*;
-use cosmwasm_std::testing::MockQuerier;
 use cosmwasm_std::{
     Addr, BankMsg, Binary, BlockInfo, Coin, ContractInfo, CosmosMsg, Deps, DepsMut, Empty, Env,
     MessageInfo, QuerierWrapper, Reply, ReplyOn, Response, SubMsg, SubMsgResponse, SubMsgResult,
@@ -51,6 +50,33 @@ impl Bank {
         self.bal.insert((from.to_string(), denom.to_string()), b - amt);
         *self.bal.entry((to.to_string(), denom.to_string())).or_insert(0) += amt;
         Ok(())
+    }
+}
+
+/// The chain's query interface as a contract sees it: bank balances come from the simulated ledger (a
+/// contract that consults its own balance sees what it really holds, unsolicited deposits included);
+/// everything else is unsupported, as no contract here has a reason to ask.
+pub struct SimQuerier<'a> {
+    pub bank: &'a Bank,
+}
+
+impl<'a> cosmwasm_std::Querier for SimQuerier<'a> {
+    fn raw_query(&self, bin_request: &[u8]) -> cosmwasm_std::QuerierResult {
+        use cosmwasm_std::{BankQuery, ContractResult, QueryRequest, SystemError, SystemResult};
+        let req: QueryRequest<Empty> = match cosmwasm_std::from_json(bin_request) {
+            Ok(r) => r,
+            Err(e) => return SystemResult::Err(SystemError::InvalidRequest { error: e.to_string(), request: bin_request.into() }),
+        };
+        let coin = |d: &str, a: u128| serde_json::json!({"denom": d, "amount": a.to_string()});
+        let out = match req {
+            QueryRequest::Bank(BankQuery::Balance { address, denom }) => serde_json::json!({"amount": coin(&denom, self.bank.balance(&address, &denom))}),
+            QueryRequest::Bank(BankQuery::AllBalances { address }) => {
+                let v: Vec<serde_json::Value> = self.bank.bal.iter().filter(|((a, _), b)| *a == address && **b > 0).map(|((_, d), b)| coin(d, *b)).collect();
+                serde_json::json!({"amount": v})
+            }
+            _ => return SystemResult::Err(SystemError::UnsupportedRequest { kind: "only bank balance queries are served".into() }),
+        };
+        SystemResult::Ok(ContractResult::Ok(out.to_string().into_bytes().into()))
     }
 }
 
@@ -386,7 +412,7 @@ impl World {
         }
         let env = self.env(which, with_tx);
         let api = self.api.clone();
-        let querier: MockQuerier<Empty> = MockQuerier::default();
+        let querier = SimQuerier { bank: &self.st.bank };
         let r = guarded(|| {
             let deps = DepsMut { storage: &mut store, api: &api, querier: QuerierWrapper::new(&querier) };
             f(deps, env)
@@ -420,7 +446,7 @@ impl World {
         let store = self.take_store(which);
         let env = self.env(which, false);
         let api = self.api.clone();
-        let querier: MockQuerier<Empty> = MockQuerier::default();
+        let querier = SimQuerier { bank: &self.st.bank };
         let bytes = msg.as_bytes().to_vec();
         let r = guarded(|| {
             let deps = Deps { storage: &store, api: &api, querier: QuerierWrapper::new(&querier) };
